@@ -156,6 +156,10 @@ def run(ctx):
     ctx.extra["resolved_callee_summaries"] = {k: sorted(v) for k, v in sorted(tail.pol._summaries.items())}
 
 
+CLAIM = {'text': "Decides, for every interleaving at await granularity of the five request coroutines with RunEngine._run, that each assignment to _state made by _run (or a handler on its behalf) is in the transition table for every reachable abstract tuple (state, run-permit, resumable, cancel-pending); that every exit of _run passes _state='idle' on every path including CancelledError/Exception edges; that _state is written only by RunEngine with literal states through the checking setter; and that the blocking entry points are guarded. Real timing is not decided; today's tree has the F-1 known findings (engine stuck when a request lands during the epilogue).", 'technique': 'thread-modular typestate fixpoint over a CFG with exceptional edges; post-dominance (must-pass-through); ownership table',
+         'note': "Request alphabet: pause, deferred pause, suspend, abort, stop, halt, main-thread permit set; KeyboardInterrupt / 'panicked' path and commands added with register_command are outside the model."}
+
+
 RE = "run_engine.py"
 MUTANTS = [
     ("table: idle removed from transitions['pausing']",
